@@ -16,7 +16,9 @@ theorem callback_table_writers :
 theorem one_watcher : goNamed "s.waitCallback" = 1 := by decide
 
 /-- `AllowPush` is honoured as given (nil options mean no push) -/
-theorem allow_push (sNil allow : Bool) : Funcs.allowPush sNil allow = (!sNil && allow) := rfl
+theorem allow_push (sNil allow : Bool) : Funcs.allowPush sNil allow = (!sNil && allow) := by
+  unfold Funcs.allowPush
+  cases sNil <;> cases allow <;> simp
 
 /-- on a push-enabled server an unmatched reply-shaped member (no method, and a result or an error)
 is dropped in the reader -/
